@@ -65,6 +65,30 @@ def gen_case(cid, rng):
             sub = {q: 'file' for q in pool if rng.random() < 0.55}
             sub.setdefault('__pycache__/a.cpython-312.pyc', 'file')
             links[lp] = {'paths': sub, 'contents': {q: 'bytes of linked %s\n' % q for q in sub if not q.endswith('.py')}}
+    # orphaned byte-code that is a symbolic link to a file (a source-less module
+    # linked in from a shared store or from a data directory of the same tree):
+    # the LINK is the orphan; the file behind it - read-only or not, inside or
+    # outside the search paths - is "another file"
+    flinks = {}
+    if rng.random() < 0.3:
+        dirs_here = sorted({os.path.dirname(p) for p in paths} & set(DIRS)) or ['']
+        for k in range(rng.randint(1, 3)):
+            d = rng.choice(dirs_here + ['', 'pkg'])
+            lp = (d + '/' if d else '') + rng.choice(['vendored.pyc', 'legacy.pyo', 'shared.pyc', 'w.pyc', 'q.pyo'])
+            if lp in paths or lp in flinks:
+                continue
+            kind = rng.choice(['store', 'store', 'inside', 'inside', 'dangling'])
+            if kind == 'store':
+                flinks[lp] = {'target': '<store>/blob%d.bin' % k, 'mode': rng.choice([0o444, 0o644, 0o400])}
+            elif kind == 'inside':
+                # the data file lives in a directory of the tree (searched or not)
+                tgt = rng.choice(['pkg/data/legacy%d.bin', 'shared_data/mod%d.bin', '__pycache__/real%d.cpython-312.pyc',
+                                  'skipme/blob%d.bin']) % k
+                paths[tgt] = 'file'
+                contents[tgt] = 'bytes of %s\n' % tgt
+                flinks[lp] = {'target': tgt, 'mode': rng.choice([0o444, 0o644])}
+            else:
+                flinks[lp] = {'target': None}
     keepsel = rng.choice(['', '', '', '-k', '--usecompiled'])
     ignore = ['skipme'] if rng.random() < 0.5 else []
     if rng.random() < 0.4:
@@ -73,7 +97,7 @@ def gen_case(cid, rng):
     args = ['--list-tests'] + ([keepsel] if keepsel else [])
     for i in ignore:
         args += ['--ignore_dir', i]
-    return {'id': cid, 'paths': paths, 'contents': contents, 'roots': roots, 'args': args, 'links': links,
+    return {'id': cid, 'paths': paths, 'contents': contents, 'roots': roots, 'args': args, 'links': links, 'flinks': flinks,
             'keep': bool(keepsel), 'ignore': ignore,
             'path_flag': rng.choice(['--path', '--test-path'])}
 
@@ -87,11 +111,17 @@ def run(chk, tier, seed, replay=None):
                 '(packages, __pycache__, .git, node_modules, my-dir, 1bad, CVS, _darcs, directories named fixtures[v1], data*, what?) x '
                 '--ignore_dir lists (skipme, literal names with [ ] * ? that are / are not directories of the tree) x '
                 'roots {top}, {top, top}, {top, pkg}, {pkg, my-dir}, {pkg, pkg_extra} x {none, -k, --usecompiled} x --path / '
-                '--test-path, 30% with a directory linked in from outside the tree; the file system is snapshotted (paths, hashes) before and after a --list-tests '
-                'run and TLC judges the difference; distinct = distinct (tree, options)')
+                '--test-path, 30% with a directory linked in from outside the tree, 30% with .pyc / .pyo entries that are symbolic links to a file '
+                '(read-only 0444 / 0400 or 0644; in a store outside every search path, in a data directory of the tree, below __pycache__ or an ignored '
+                'directory, or dangling); the file system is snapshotted before and after a --list-tests run - per entry its type, lstat permission bits '
+                'and content hash, per symbolic link its spelling plus type, stat permission bits and content of what it leads to, also for the '
+                'link targets outside the search paths - and TLC judges the difference (a changed mode is a modification); '
+                'distinct = distinct (tree, options)')
     chk.assumptions += ['a file literally named ".pyc" / ".pyo" and orphans below non-identifier or IGNORE_FOLDERS '
                         'directories are don\'t-care for completeness (the safety clauses still apply)',
-                        'a symlinked directory (target outside the tree) counts as a directory with the target\'s content']
+                        'a symlinked directory (target outside the tree) counts as a directory with the target\'s content',
+                        'a symbolic link to a file (or a dangling one) counts as a file of its directory: an orphaned x.pyc that '
+                        'is a link is removed as a link, the file it leads to is another file']
     rng = random.Random(seed * 7919 + 15)
     if replay and optionscheck.is_replay(replay):
         optionscheck.replay(chk, replay, ['C15:'])
@@ -112,7 +142,7 @@ def run(chk, tier, seed, replay=None):
     results = fstree.run_cases(cases)
     recs = []
     for c, r in zip(cases, results):
-        T = fstree.tree_record(r['paths'], c['roots'], keep=c['keep'], ignore_dir=c['ignore'])
+        T = fstree.tree_record(r['paths'], c['roots'], keep=c['keep'], ignore_dir=c['ignore'], linkdirs=r['linkdirs'])
         crashed = ''
         if r['rc'] not in (0, 1) or 'Traceback (most recent call last)' in r['stderr']:
             crashed = 'rc=%s %s' % (r['rc'], r['stderr'].strip().splitlines()[-1:] or '')
@@ -146,6 +176,8 @@ def run(chk, tier, seed, replay=None):
                           % (clause, arg, c['roots'], c['args'], rec['deleted'][:6], rec['changed'][:4]),
                           {'case': c, 'record': rec, 'stdout_tail': r['stdout'][-1500:], 'stderr_tail': r['stderr'][-1500:]})
     chk.extra['runs_that_deleted_something'] = ndel
+    chk.extra['runs_that_deleted_a_symlinked_bytecode_file'] = sum(
+        any(p in (c.get('flinks') or {}) for p in rec['deleted']) for c, rec in zip(cases, recs))
     chk.extra['runs_with_bytecode_below_a_literally_ignored_glob_name'] = sum(
         any(i in c['ignore'] and any(('/' + p).find('/' + i + '/') >= 0 and p[-4:] in ('.pyc', '.pyo') for p in c['paths'])
             for i in ('fixtures[v1]', 'data*', 'what?')) for c in cases)
